@@ -268,6 +268,11 @@ func init() {
 		for i := 0; i < n; i++ {
 			cs = append(cs, genBuiltinCase(r))
 		}
+		// jet.Func values reading their arguments through Get / ParseInto / IsSet next to a reflected
+		// function receiving the same call, in every call shape (shared with C18)
+		for i := 0; i < n/3; i++ {
+			cs = append(cs, genArgposCases(r)...)
+		}
 		for i := 0; i < n; i++ {
 			cs = append(cs, evalCase("eval", genProgram(r, "calls")))
 		}
@@ -317,6 +322,9 @@ func genBuiltinCase(r *h.Rand) h.Case {
 		{`{{len(` + q(s1) + `)}}`, func() string { return fmt.Sprint(len(s1)) }},
 		{`{{len(split(` + q(s1) + `, ""))}}`, func() string { return fmt.Sprint(len(strings.Split(s1, ""))) }},
 		{`{{range k, x := ints(` + fmt.Sprint(n) + `, ` + fmt.Sprint(n+3) + `)}}{{k}}:{{x}},{{end}}`, func() string { return fmt.Sprintf("0:%d,1:%d,2:%d,", n, n+1, n+2) }},
+		{`{{ ` + q(s1) + ` | slice(1, _, 3) | len }}/{{ ` + q(s1) + ` | slice(_) | len }}`, func() string { return "3/1" }},
+		{`{{ ` + q(s1) + ` | map("k", _) | len }}/{{ "k" | map(_, 1) | len }}`, func() string { return "1/1" }},
+		{`{{ ` + q(s1) + ` | len }}/{{ len: ` + q(s1) + ` }}`, func() string { return fmt.Sprintf("%d/%d", len(s1), len(s1)) }},
 		{`{{m := map("k", ` + q(s1) + `, "n", ` + fmt.Sprint(n) + `)}}{{m["k"]|raw}}/{{m.n}}/{{len(m)}}`, func() string { return fmt.Sprintf("%s/%d/2", s1, n) }},
 		{`{{x := slice(` + q(s1) + `, ` + fmt.Sprint(n) + `, true)}}{{x[0]|raw}}/{{x[1]}}/{{x[2]}}/{{len(x)}}`, func() string { return fmt.Sprintf("%s/%d/true/3", s1, n) }},
 		{`{{x := array(` + q(s1) + `)}}{{x[0]|raw}}/{{len(x)}}`, func() string { return s1 + "/1" }},
